@@ -226,6 +226,16 @@ class Program:
             return e
         return tuple(self.inline_wrappers(x, depth) if isinstance(x, tuple) else x for x in e)
 
+    def pg_of(self, fn):
+        """the (cached) product graph of a function"""
+        c = self.__dict__.setdefault("_pg_cache", {})
+        g = c.get(fn.key)
+        if g is None:
+            from .pg import PG
+            g = PG(self, fn)
+            c[fn.key] = g
+        return g
+
     def simplify_call(self, e, fr=None):
         path = e[1]
         args = e[2]
@@ -241,6 +251,27 @@ class Program:
         if path.endswith("::from_residual") and "option::Option" in path:
             # `o?` on None: the enclosing function's Option result is None
             return ("enum", "core::option::Option", "None")
+        if args and ("option::Option" in path or "result::Result" in path):
+            # accessors of an Option/Result whose variant is known at this point (a helper taking `Option<..>` spliced
+            # in at a call that passes `None` / `Some(v)`)
+            x = args[0]
+            var = payload = None
+            if x[0] == "enum" and x[1] in ("core::option::Option", "core::result::Result"):
+                var = x[2]
+            elif x[0] == "adt" and x[1].rsplit("::", 1)[0] in ("core::option::Option", "core::result::Result") and len(x[2]) == 1:
+                var = x[1].rsplit("::", 1)[1]
+                payload = x[2][0][1]
+            if var is not None:
+                m_ = path.rsplit("::", 1)[1]
+                truth = {"is_some": var == "Some", "is_none": var == "None", "is_ok": var == "Ok", "is_err": var == "Err"}
+                if m_ in truth and len(args) == 1:
+                    return ("bool", truth[m_])
+                if var in ("Some", "Ok") and payload is not None and m_ in ("unwrap", "expect", "unwrap_or", "unwrap_or_default", "unwrap_or_else", "unwrap_unchecked"):
+                    return payload
+                if var == "None" and m_ == "unwrap_or" and len(args) == 2:
+                    return args[1]
+                if var == "None" and m_ == "unwrap_or_default" and len(args) == 1:
+                    return ("opaque", "default")
         if len(args) == 2 and "PartialEq" in path:
             from .an import mk_bin
             if path.endswith("::eq"):
